@@ -8,6 +8,15 @@ REQUIRED = [
     "DaeVerif.C02.Props.kernel_decision",
     "DaeVerif.C02.Props.kernel_eq_first_match_spec",
     "DaeVerif.C02.Props.userspace_typed_eq_C01_matchM",
+    "DaeVerif.C02.Props.userspace_shared_eq_C01_matchM",
+    "DaeVerif.C02.Props.inherit_keeps_generation_installed",
+    "DaeVerif.C02.Props.deleting_a_live_slot_breaks_routing",
+    "DaeVerif.C02.Props.installed_check_sound",
+    "DaeVerif.C02.Props.routeK_nonneg_or_eperm",
+    "DaeVerif.C02.Props.active_len_clamped",
+    "DaeVerif.C02.Props.nothing_installed_is_error",
+    "DaeVerif.C02.Props.builder_accepts_iff_installable",
+    "DaeVerif.C02.Props.domain_hypothesis_needed",
     "DaeVerif.C02.Props.dns_query_goes_to_control_plane",
     "DaeVerif.C02.Props.non_dns_or_must_same_decision",
     "DaeVerif.C02.Props.decode_encode_little",
@@ -83,6 +92,17 @@ def const_agreement(ctx):
     for name, sv, cv, gv in bad:
         ctx.report(f"generated constant {name} disagrees: spec.json={sv} ebpf_sync_defs.h={cv} ebpf_generated.go={gv}",
                    {"const": name, "spec": sv, "c": cv, "go": gv})
+    # Makefile default of MAX_MATCH_SET_LEN (passed to clang and, through ldflags, to consts.MaxMatchSetLen_)
+    # = the defaults compiled into tproxy.c and ebpf.go (those two are compared through the const ops)
+    mk = re.search(r"^MAX_MATCH_SET_LEN\s*\?=\s*(\d+)", open(os.path.join(REPO, "Makefile")).read(), re.M)
+    gosrc = open(os.path.join(REPO, "common/consts/ebpf.go")).read()
+    gm = re.search(r"MaxMatchSetLen\s*=\s*([0-9* ]+)", gosrc)
+    if mk and gm:
+        gv = eval(gm.group(1), {"__builtins__": {}})
+        if int(mk.group(1)) != gv:
+            ctx.report(f"Makefile default MAX_MATCH_SET_LEN={mk.group(1)} differs from consts.MaxMatchSetLen={gv}",
+                       {"makefile": mk.group(1), "go": gv})
+        ctx.cov["makefile_max_match_set_len"] = int(mk.group(1))
     ctx.cov["generated_constants_compared"] = len(rows)
     return len(rows)
 
